@@ -6,14 +6,14 @@ CHECKS = {
         'design_ref': 'DESIGN.md §5 C20',
         'runs': [
             {'harness': 'h_strings', 'flavour': 'fast', 'mode': 'utf8',
-             'args': {'quick': {'maxlen': 6}, 'thorough': {'maxlen': 8}}, 'share': 0.8},
+             'args': {'quick': {'maxlen': 5}, 'thorough': {'maxlen': 6}}, 'share': 0.8},
             {'harness': 'h_strings', 'flavour': 'fast', 'mode': 'ranges',
              'args': {'quick': {'window': 8}, 'thorough': {'window': 16}}, 'share': 0.2},
         ],
         'technique': 'bounded-exhaustive enumeration of all strings / range pairs on the real header code vs naive reference (E1)',
-        'level_text': 'every string of <= 6 (thorough 8) code points over a 9-symbol alphabet mixing 1-4 byte code points, and every ordered '
+        'level_text': 'every string of <= 5 (thorough 6) code points over a 17-symbol alphabet (ASCII symbols with a role + first/typical/last code point of every encoded length), and every ordered '
                       'pair of ranges in a window, is run through the real functions and an independent naive reference; complete within the bound',
-        'level_note': 'well-formed UTF-8 only (as the property states); alphabet of 9 symbols; clang14/libstdc++12',
+        'level_note': 'well-formed UTF-8 only (as the property states); alphabet of 17 symbols; clang14/libstdc++12',
     },
 }
 
